@@ -569,6 +569,56 @@ def pevent_term(e):
     return {'connect': 'PConnect', 'publish': 'PPublish', 'giveup': 'PGiveUp', 'end': 'PEnd'}.get(k, '(PRaised OracleMiss)')
 
 
+# --------------------------------------------------------------------------- parity traces for C14
+def _plain_cb(cb):
+    v = D.cb_value(cb)
+    return ('app', v.n) if isinstance(v, coqio.Obj) else v
+
+
+def _plain_eff(e):
+    if e[0] == 'op' and e[1] == 'OEmit':
+        args = list(e[2])
+        args[5] = _plain_cb(args[5])
+        return ('op', 'OEmit', args)
+    return tuple(list(x) if isinstance(x, list) else x for x in e)
+
+
+def _plain_state(mgr):
+    rooms = [(ns, [(room, list(bd._fwdm.items())) for room, bd in nsr.items()]) for ns, nsr in mgr.rooms.items()]
+    cbs = [(sid, [(i, _plain_cb(c)) for i, c in d.items()]) for sid, d in mgr.callbacks.items()]
+    return ('state', rooms, cbs)
+
+
+def parity_traces(rng, n):
+    """For C14: n generated channel scenarios, each run on the real PubSubManager and on the real
+    AsyncPubSubManager; returns [('pubsub-listener', scenario_repr, trace_sync, trace_async)] where a trace is
+    the flat list of canonicalised effect segments (one per item, plus the loop's prefix and suffix) followed by
+    the final rooms / callbacks dump, as plain Python values.  Fault scripts are cut to their first entry: the
+    first fault point of every item is an operation entry, never a send (the one place where the two classes
+    differ by design: Manager.emit stops at a raising send, AsyncManager.emit runs the sends as tasks)."""
+    gen = Gen(rng, False)
+    loop = asyncio.new_event_loop()
+    loop.set_exception_handler(lambda l, c: None)
+    logging.getLogger('asyncio').setLevel(logging.CRITICAL)
+    out = []
+    try:
+        for _ in range(n):
+            plan, items = gen.scenario()
+            for it in items:
+                if it.get('fs'):
+                    it['fs'] = it['fs'][:1]
+            traces = []
+            for is_async in (False, True):
+                _, segs, _, _, mgr = D.run_listener(is_async, plan, items, loop)
+                traces.append([[_plain_eff(e) for e in seg] for seg in segs] + [_plain_state(mgr)])
+            rep = '%d clients; %s' % (sum(1 for o in plan if o[0] == 'connect'),
+                                      ', '.join(i['label'] for i in items))
+            out.append(('pubsub-listener', rep[:300], traces[0], traces[1]))
+    finally:
+        loop.close()
+    return out
+
+
 # --------------------------------------------------------------------------- run
 def lst_batch(chk, gen, is_async, n, loop, cases, meta, probes):
     """n generated listener scenarios on one manager class, appended to cases / meta."""
